@@ -1,6 +1,11 @@
 package props
 
 import (
+	"context"
+	"fmt"
+	"hash/fnv"
+	"io"
+	"net/http"
 	"net/url"
 	"sort"
 	"strings"
@@ -22,6 +27,10 @@ import (
 //
 // Nothing is computed for the model on the Go side: P hands over the raw strings the runtime holds
 // and reports every field of the URL of the request CreateHttpRequest returns.
+//
+// The library offers several ways from an operation to the request it sends; they must all arrive at
+// the same URL (c10Way). P builds every case once along each of them (that also shakes Go's map
+// order four times); Q and S take the one the case's own fields select.
 func init() {
 	proto.Register(&proto.Prop{ID: "C10", Gen: c10Gen, Exec: c10Exec, Corpus: [][]string{
 		// F10a (known finding): an empty value in the first segment makes the path start with "//"
@@ -41,9 +50,26 @@ const c10Host = "example.test"
 type c10Writer struct {
 	path  [][2]string
 	query [][]string
+	// twice: every parameter is first set to something else and then to its value (the last Set counts)
+	twice bool
+	// what else a generated parameter writer may set: none of it is part of the URL
+	body interface{}
+	form bool
 }
 
 func (w c10Writer) WriteToRequest(req runtime.ClientRequest, _ strfmt.Registry) error {
+	if w.twice {
+		for _, kv := range w.path {
+			if err := req.SetPathParam(kv[0], "set/before?{"+kv[0]+"}#"); err != nil {
+				return err
+			}
+		}
+		for _, q := range w.query {
+			if err := req.SetQueryParam(q[0], "set", "before"); err != nil {
+				return err
+			}
+		}
+	}
 	for _, kv := range w.path {
 		if err := req.SetPathParam(kv[0], kv[1]); err != nil {
 			return err
@@ -54,7 +80,114 @@ func (w c10Writer) WriteToRequest(req runtime.ClientRequest, _ strfmt.Registry) 
 			return err
 		}
 	}
-	return nil
+	if w.body != nil {
+		if err := req.SetBodyParam(w.body); err != nil {
+			return err
+		}
+	}
+	if w.form {
+		if err := req.SetFormParam("x", "form value, not a query"); err != nil {
+			return err
+		}
+	}
+	return req.SetHeaderParam("X-Y", "?x=1#")
+}
+
+// c10Capture is the transport of the ways that go through Submit: it keeps the URL it is asked to send to.
+type c10Capture struct{ u *url.URL }
+
+func (c *c10Capture) RoundTrip(req *http.Request) (*http.Response, error) {
+	u := *req.URL
+	c.u = &u
+	if req.Body != nil {
+		_, _ = io.Copy(io.Discard, req.Body)
+		_ = req.Body.Close()
+	}
+	return &http.Response{Status: "204 No Content", StatusCode: 204, Proto: "HTTP/1.1", ProtoMajor: 1, ProtoMinor: 1,
+		Header: http.Header{"Content-Type": []string{runtime.JSONMime}}, Body: http.NoBody, Request: req}, nil
+}
+
+var c10NoReader = runtime.ClientResponseReaderFunc(func(runtime.ClientResponse, runtime.Consumer) (interface{}, error) { return nil, nil })
+
+// c10Way builds the request URL of one operation along one of the library's ways:
+//
+//	0  a fresh Runtime, CreateHttpRequest, GET (the plain one)
+//	1  a Runtime that has built another operation before (own pattern with a static query, own path and
+//	   query parameters, an auth writer adding a query credential); then CreateHttpRequest, POST with a
+//	   payload, every parameter set twice
+//	2  Submit through Runtime.Transport (the URL is the one the transport is asked to send to), PUT with a
+//	   stream payload; the caller's last single-valued query parameter is not set by the parameter writer
+//	   but as a query credential by the operation's AuthInfo (client.APIKeyAuth)
+//	3  NewWithClient with a preset http.Client, Submit, HEAD with form data; that query parameter comes
+//	   from Runtime.DefaultAuthentication, the operation carries its own http.Client and a context
+func c10Way(way int, host, base string, viaNew bool, schemes, opSchemes []string, pattern string, w c10Writer) (*url.URL, error) {
+	capt := &c10Capture{}
+	newRT := func(b string) *client.Runtime {
+		if way == 3 {
+			return client.NewWithClient(host, b, schemes, &http.Client{Transport: capt})
+		}
+		return client.New(host, b, schemes)
+	}
+	var rt *client.Runtime
+	if viaNew {
+		rt = newRT(base)
+	} else {
+		rt = newRT("/")
+		rt.BasePath = base
+	}
+	op := &runtime.ClientOperation{ID: "op", Method: "GET", PathPattern: pattern, Schemes: opSchemes}
+	// the query credential
+	var cred runtime.ClientAuthInfoWriter
+	if way >= 2 {
+		for i := len(w.query) - 1; i >= 0; i-- {
+			if q := w.query[i]; len(q) == 2 {
+				cred = client.APIKeyAuth(q[0], "query", q[1])
+				w.query = append(append([][]string{}, w.query[:i]...), w.query[i+1:]...)
+				break
+			}
+		}
+	}
+	switch way {
+	case 0:
+	case 1:
+		_, _ = rt.CreateHttpRequest(&runtime.ClientOperation{ID: "before", Method: "PUT", PathPattern: "/before/{id}/{name}/{a}?x=before&before=1", Schemes: []string{"https"},
+			AuthInfo: client.APIKeyAuth("y", "query", "before"),
+			Params:   c10Writer{path: [][2]string{{"id", "before"}, {"a", "b/c"}}, query: [][]string{{"z", "before"}, {"a b", "1", "2"}}, body: "before"}})
+		op.Method, w.twice, w.body = "POST", true, map[string]string{"a": "?b#"}
+	case 2:
+		rt.Transport = capt
+		op.Method, op.AuthInfo, op.Reader, w.body = "PUT", cred, c10NoReader, strings.NewReader("?x=1")
+	case 3:
+		rt.DefaultAuthentication = cred
+		op.Method, op.Reader, w.form = "HEAD", c10NoReader, true
+		op.ConsumesMediaTypes = []string{"", runtime.URLencodedFormMime}
+		op.Client, op.Context = &http.Client{Transport: capt}, context.Background()
+	}
+	op.Params = w
+	if way < 2 {
+		req, err := rt.CreateHttpRequest(op)
+		if err != nil {
+			return nil, err
+		}
+		return req.URL, nil
+	}
+	if _, err := rt.Submit(op); err != nil && capt.u == nil {
+		return nil, err
+	}
+	if capt.u == nil {
+		return nil, fmt.Errorf("c10: the transport was not asked")
+	}
+	return capt.u, nil
+}
+
+// c10Pick: a number the case's own fields determine
+func c10Pick(in []string, n int) int {
+	h := fnv.New32a()
+	for _, f := range in {
+		_, _ = h.Write([]byte(f))
+		_, _ = h.Write([]byte{' '})
+	}
+	return int(h.Sum32() % uint32(n))
 }
 
 func c10Values(v url.Values) (string, string) {
@@ -108,22 +241,16 @@ func c10Exec(in []string) []string {
 		for i := range names {
 			w.path = append(w.path, [2]string{names[i], vals[i]})
 		}
-		// rebuild several times: Go's map iteration order varies from run to run
+		// rebuild several times: Go's map iteration order varies from run to run — each time along
+		// another of the library's ways
 		var first string
 		for k := 0; k < 4; k++ {
-			var rt *client.Runtime
-			if viaNew {
-				rt = client.New(host, base, []string{"http"})
-			} else {
-				rt = client.New(host, "/", []string{"http"})
-				rt.BasePath = base
-			}
-			req, err := rt.CreateHttpRequest(&runtime.ClientOperation{ID: "op", Method: "GET", PathPattern: pattern, Params: w})
+			u, err := c10Way(k, host, base, viaNew, []string{"http"}, nil, pattern, w)
 			var got string
 			if err != nil {
 				got = "ERR"
 			} else {
-				got = strings.Join(c10URL(req.URL, nil), " ")
+				got = strings.Join(c10URL(u, nil), " ")
 			}
 			if k == 0 {
 				first = got
@@ -142,20 +269,18 @@ func c10Exec(in []string) []string {
 		if q := c10Query(p); q != "" {
 			pattern += "?" + q
 		}
-		rt := client.New("example.test", base, []string{"http"})
-		req, err := rt.CreateHttpRequest(&runtime.ClientOperation{ID: "op", Method: "GET", PathPattern: pattern, Params: c10Writer{query: c}})
+		u, err := c10Way(c10Pick(in, 4), "example.test", base, true, []string{"http"}, nil, pattern, c10Writer{query: c})
 		if err != nil {
 			return []string{"ERR", proto.B(err.Error())}
 		}
-		k, v := c10Values(req.URL.Query())
-		return []string{k, v, proto.B(req.URL.RawQuery)}
+		k, v := c10Values(u.Query())
+		return []string{k, v, proto.B(u.RawQuery)}
 	case "S":
-		rt := client.New("example.test", "/", proto.UnL(in[1]))
-		req, err := rt.CreateHttpRequest(&runtime.ClientOperation{ID: "op", Method: "GET", PathPattern: "/x", Schemes: proto.UnL(in[2]), Params: c10Writer{}})
+		u, err := c10Way(c10Pick(in, 4), "example.test", "/", true, proto.UnL(in[1]), proto.UnL(in[2]), "/x", c10Writer{})
 		if err != nil {
 			return []string{"ERR", proto.B(err.Error())}
 		}
-		return []string{proto.B(req.URL.Scheme)}
+		return []string{proto.B(u.Scheme)}
 	case "U":
 		return c10URL(url.Parse(proto.UnB(in[1])))
 	case "E":
@@ -232,8 +357,18 @@ func c10RawURL(r *proto.Rng) string {
 }
 
 func c10Name(r *proto.Rng) string {
-	return r.Pick("id", "petId", "a", "b", "name", "x-y", "v1", "id2", "i")
+	// (ID / petid: the same names in another case — other names)
+	return r.Pick("id", "petId", "a", "b", "name", "x-y", "v1", "id2", "i", "id", "a", "ID", "petid", "x.y", "n_1")
 }
+
+// every byte value (the escape table has a line for each)
+var c10AllBytes = func() string {
+	b := make([]byte, 256)
+	for i := range b {
+		b[i] = byte(i)
+	}
+	return string(b)
+}()
 
 func c10Value(r *proto.Rng) string {
 	switch r.Intn(10) {
@@ -243,6 +378,19 @@ func c10Value(r *proto.Rng) string {
 		return r.Pick("a/b", "..", ".", "a?b=c", "a#frag", "50%", "%2F", "a b", "x;y", "{", "}", "é", "a+b", "")
 	case 2:
 		return r.Bytes("ab/?#%{} .:*+é\x00", 1+r.Intn(6))
+	case 3:
+		switch r.Intn(4) {
+		case 0:
+			return r.Bytes(c10AllBytes, 1+r.Intn(8)) // any bytes, valid UTF-8 or not
+		case 1:
+			// what a value might carry from another URL: escapes in either case, reserved characters, dot segments
+			return r.Pick("%2f", "%2F..%2f", "a%20b", "%c3%a9", "%", "%%", "%2", "/../x", "./", "../", "a//b", "/", "//", "//h/p", "a/", "/a",
+				"http://h/p?q#f", "a&b=c", "a=b", "a;b", "a,b", "a@b", "a:b", "~", "'", "\"", "\\", "a\nb", "\t", "\x7f", "\xff", "\xc3", "+", "a%2Bb", "?", "#", "*", "$", "!", "(", ")", "[", "]", "|", "^", "`", "<", ">")
+		case 2:
+			return strings.Repeat(r.Pick("a", "/", "%", "é", "{id}", " "), 20+r.Intn(300)) // long values
+		default:
+			return r.Pick("{", "}", "{}", "{{id}}", "{id", "id}", "}{", "{id}{id}", "{ID}", "{a}/{b}", "%7Bid%7D", "{%69d}")
+		}
 	default:
 		return r.Pick("1", "42", "abc", "kitty", "A-Z", "x_y")
 	}
@@ -279,9 +427,9 @@ func c10Gen(r *proto.Rng, n int, tier string, emit func(in ...string)) {
 						return r.Pick("é", "a b", "a\"b", "<x>", "a|b", "a^b", "a`b", "a\\b")
 					}
 					// dot segments and already-escaped static text (read as odd input by the driver)
-					return r.Pick(".", "..", "a%2Fb", "%41", "a%zz", "a%3Fb", "a%23b", "50%25")
+					return r.Pick(".", "..", "a%2Fb", "%41", "a%zz", "a%3Fb", "a%23b", "50%25", "a%2fb", "%c3%a9", "%C3%A9", "%7Bid%7D", "%7bid%7d", "...", ".a", "a.")
 				default:
-					return r.Pick("pets", "store", "a", "b.c", "x_y", "v1", "A-Z")
+					return r.Pick("pets", "store", "a", "b.c", "x_y", "v1", "A-Z", "Pets", "PETS", "id")
 				}
 			}
 			for s := 0; s < nseg; s++ {
@@ -318,7 +466,8 @@ func c10Gen(r *proto.Rng, n int, tier string, emit func(in ...string)) {
 			if r.Chance(1, 8) {
 				pattern += r.Pick("?x=1", "?y=2&y=3", "?", "?a%20b=c+d&x", "?x=1#frag", "?x=%zz&y=2;z")
 			}
-			base := r.Pick("/", "/", "", "", "/api", "/api/", "api", "/v1/base", "/api?x=1", "/a//b/", "/api/../v2", "/é", "/a'b", "?z=9")
+			base := r.Pick("/", "/", "", "", "/api", "/api/", "api", "/v1/base", "/api?x=1", "/a//b/", "/api/../v2", "/é", "/a'b", "?z=9",
+				"/API", "api/", "/api/v1/", "/api?x=1&x=2", "/api?y", "/api?", "/{id}", "/api/{a}/", "/.", "/..", "/api/.", "/a.b/~u", "/api?x=%31&a+b=c%20d")
 			if r.Chance(1, 40) {
 				base = r.Pick("//h/b", "http://h/b?x=1", "//h", "/b%2Fc", "/b#f", "/a b", "h:80/b", "/%zz")
 			}
@@ -350,8 +499,20 @@ func c10Gen(r *proto.Rng, n int, tier string, emit func(in ...string)) {
 			if r.Chance(1, 8) {
 				nm := r.Pick("zz", "bXd", "aXc")
 				if !seen[nm] {
+					seen[nm] = true
 					ns = append(ns, nm)
 					vs = append(vs, c10Value(r))
+				}
+			}
+			if len(names) > 0 && r.Chance(1, 8) {
+				// a parameter the pattern does not name: a name of the pattern in another case, with a brace,
+				// as a prefix of it or with blanks around it
+				nm := names[r.Intn(len(names))]
+				nm = r.Pick(strings.ToUpper(nm), strings.ToLower(nm), strings.Title(nm), "{"+nm+"}", nm[:len(nm)/2], nm+nm, " "+nm, nm+" ")
+				if !seen[nm] {
+					seen[nm] = true
+					ns = append(ns, nm)
+					vs = append(vs, r.Pick("WRONG", "wrong/{id}", c10Value(r)))
 				}
 			}
 			// the caller's query parameters
@@ -359,10 +520,10 @@ func c10Gen(r *proto.Rng, n int, tier string, emit func(in ...string)) {
 			if r.Chance(1, 4) {
 				v := url.Values{}
 				for j, nk := 0, 1+r.Intn(2); j < nk; j++ {
-					k := r.Pick("x", "y", "z", "a b", "é", "k&=")
+					k := r.Pick("x", "y", "z", "a b", "é", "k&=", "X", "a+b", "a%20b", "x;y", "?", "#", "/", "{id}", "\x00", "\xff")
 					v.Del(k)
 					for l, nv := 0, r.Intn(3); l < nv; l++ {
-						v.Add(k, r.Pick("1", "2", "", "p q", "a&b=c", "é", "50%", "a+b"))
+						v.Add(k, r.Pick("1", "2", "", "p q", "a&b=c", "é", "50%", "a+b", "%41", "a;b", "?x=1#f", "/a/../b", "{id}", "\x00\xff", "x\ny"))
 					}
 					if len(v[k]) == 0 {
 						v[k] = []string{} // set, without a value
@@ -370,24 +531,37 @@ func c10Gen(r *proto.Rng, n int, tier string, emit func(in ...string)) {
 				}
 				ck, cv = c10Values(v)
 			}
-			emit("P", proto.B(c10Host), baseField, proto.B(pattern), proto.L(ns), proto.L(vs), ck, cv)
+			host := c10Host
+			if r.Chance(1, 8) {
+				// the host is taken as the caller gives it
+				host = r.Pick("example.test:8080", "[::1]:8443", "EXAMPLE.Test", "127.0.0.1", "localhost", "h_1.test:80", "xn--e1afmkfd.test")
+			}
+			emit("P", proto.B(host), baseField, proto.B(pattern), proto.L(ns), proto.L(vs), ck, cv)
 		case i%10 < 9:
-			mk := func() (string, string) {
+			// (a caller's key set without any value is left to stream P: stream Q's line reads the map back from the
+			// built RawQuery, where such a key leaves no trace)
+			mk := func(caller bool) (string, string) {
 				nk := r.Intn(3)
+				if r.Chance(1, 6) {
+					nk = 3 + r.Intn(3)
+				}
 				v := url.Values{}
 				for j := 0; j < nk; j++ {
-					k := r.Pick("a", "b", "c", "limit", "x y")
+					k := r.Pick("a", "b", "c", "limit", "x y", "a", "b", "A", "é", "a+b", "k&=", "x;y", "%41", "#", "?")
 					nv := 1 + r.Intn(2)
+					if r.Chance(1, 8) {
+						nv = 3 + r.Intn(2)
+					}
 					v.Del(k)
 					for l := 0; l < nv; l++ {
-						v.Add(k, r.Pick("1", "2", "x", "a&b", "é", "", "p q"))
+						v.Add(k, r.Pick("1", "2", "x", "a&b", "é", "", "p q", "", "a+b", "50%", "%32", "a=b", "x#y", "/?", "\x00", "\xff"))
 					}
 				}
 				return c10Values(v)
 			}
-			bk, bv := mk()
-			pk, pv := mk()
-			ck, cv := mk()
+			bk, bv := mk(false)
+			pk, pv := mk(false)
+			ck, cv := mk(true)
 			emit("Q", bk, bv, pk, pv, ck, cv)
 		default:
 			pick := func() []string {
